@@ -39,7 +39,12 @@ INFO = {
 FIRST_CALLS = [('rate', t, l) for t in (None, 0.0, 0.37) for l in (None, True, False)] + \
               [('predict_win', None, None), ('predict_draw', None, None), ('predict_rank', None, None)] + \
               [(who + ':' + op, None, None) for who in ('sibling', 'cousin')
+               for op in ('rate', 'predict_win', 'predict_draw', 'predict_rank')] + \
+              [(who + ':' + op, None, None) for who in ('self=', 'sibling=')
                for op in ('rate', 'predict_win', 'predict_draw', 'predict_rank')]
+# 'sibling=:<op>' / 'self=:<op>': as above, and the later call sees a CONCRETE game with exactly the (mu, sigma) values of the earlier
+# one on fresh rating objects - the only way to hit a memo keyed by rating values (a symbolic value is unhashable: such a path ends in
+# TypeError and is counted inconclusive)
 # 'sibling:<op>': the earlier call goes through ANOTHER instance of the same class with a different configuration
 # (beta x 3, other kappa/tau) - exposes class-level or module-level caches keyed too coarsely;
 # 'cousin:<op>': through an instance of a different model class.
@@ -188,10 +193,15 @@ def run_hist(key, op, shape, ls0, first, tie, mk):
     m = Model(**kw)
     fop, ft, fl = first
     m1 = m
+    same_values = False
     if ':' in fop:
         who, fop = fop.split(':')
+        same_values = who.endswith('=')
+        who = who.rstrip('=')
         other_cfg = dict(beta=3 * 25.0 / 6.0, kappa=0.001, tau=0.5, limit_sigma=not ls0)
-        if who == 'sibling':
+        if who == 'self':
+            pass
+        elif who == 'sibling':
             m1 = Model(**other_cfg)
         else:
             m1 = H.model_class([k for k in H.ALL if k != key][0 if key != 'pl' else 1])(**other_cfg)
@@ -210,6 +220,15 @@ def run_hist(key, op, shape, ls0, first, tie, mk):
     else:
         getattr(m1, fop)(g1)
         getattr(m1, fop)(g1b)
+    if same_values:
+        vals = {}
+        for i, n in enumerate(shape):
+            for j in range(n):
+                vals[H.pname('mu', i, j)] = 26.0 + i + j
+                vals[H.pname('sg', i, j)] = 5.0 + i
+        mk = H.float_maker(vals)
+        if fop != 'rate':
+            getattr(m1, fop)([[m1.rating(26.0 + i + j, 5.0 + i) for j in range(n)] for i, n in enumerate(shape)])
     a = _call(m, op, _mk_teams(m, shape, mk), _ranks_for(shape, tie) if op == 'rate' else None)
     a2 = None
     if op == 'rate':
